@@ -40,6 +40,7 @@ type c16State struct {
 	sentinel string
 	secret   string // digest of the blob that lives outside the root
 	reserved map[string]bool
+	pages    []string // query strings of "next page" links handed out by any referrers listing so far
 }
 
 // route is an independent reading of which repository a request path addresses ("" = none).
@@ -129,14 +130,6 @@ func (s *c16State) req(method, u string, body []byte, o *reqOpt, addressed ...st
 	return r
 }
 
-func contains(l []string, x string) bool {
-	for _, y := range l {
-		if y == x {
-			return true
-		}
-	}
-	return false
-}
 
 func (s *c16State) sweep() {
 	digs := sortedKeys(s.universe)
@@ -181,6 +174,43 @@ func (s *c16State) sweep() {
 				for _, x := range idx.Manifests {
 					if m, ok := mr.mans[x.Digest]; !ok || m.subject != d {
 						s.fail("referrer-leak", "referrers of %s in %s lists %s, which that repository does not hold with that subject", short(d), rn, short(x.Digest))
+					}
+				}
+				// follow the Link chain; remember the page links that were handed out
+				for hop := 0; hop < 8; hop++ {
+					l := rr.hdr.Get("Link")
+					if l == "" || !strings.Contains(l, "<") {
+						break
+					}
+					lu, err := url.Parse(l[strings.Index(l, "<")+1 : strings.Index(l, ">")])
+					if err != nil {
+						break
+					}
+					if !contains(s.pages, lu.RawQuery) {
+						s.pages = append(s.pages, lu.RawQuery)
+						if len(s.pages) > 4 {
+							s.pages = s.pages[1:]
+						}
+					}
+					s.class("paged-referrers")
+					rr = s.req("GET", lu.RequestURI(), nil, nil)
+					idx = mbody{}
+					_ = json.Unmarshal(rr.body, &idx)
+					for _, x := range idx.Manifests {
+						if m, ok := mr.mans[x.Digest]; !ok || m.subject != d {
+							s.fail("referrer-leak", "page %s of the referrers of %s in %s lists %s, which that repository does not hold with that subject", lu.RawQuery, short(d), rn, short(x.Digest))
+						}
+					}
+				}
+				// a page link handed out for another repository or subject must not carry that listing over here
+				for _, pq := range s.pages {
+					pr := s.req("GET", "/v2/"+rn+"/referrers/"+d+"?"+pq, nil, nil)
+					pidx := mbody{}
+					_ = json.Unmarshal(pr.body, &pidx)
+					for _, x := range pidx.Manifests {
+						if m, ok := mr.mans[x.Digest]; !ok || m.subject != d {
+							s.fail("referrer-page-leak", "GET /v2/%s/referrers/%s?%s lists %s, which that repository does not hold with that subject (the page parameters came from another listing)", rn, short(d), pq, short(x.Digest))
+						}
 					}
 				}
 			}
@@ -239,6 +269,9 @@ func c16Property(t *rapid.T, st *Stats) {
 	}
 	e.conf = baseConf(store, root)
 	e.conf.Storage.GC.EmptyRepo = bp(true) // the empty-repository cleanup is one of the paths that removes directories
+	if rapid.Bool().Draw(t, "smallReferrerPages") {
+		e.conf.API.Referrer.Limit = 600 // a listing of two or more referrers is split and served from the page cache
+	}
 	e.srv = olareg.New(e.conf)
 	s := &c16State{env: e, tmp: tmp, outside: outside, secret: secret, reserved: map[string]bool{}}
 	s.sentinel = treeSnapshot(outside, true)
@@ -311,7 +344,11 @@ func c16Property(t *rapid.T, st *Stats) {
 			cfg := rapid.SampledFrom(blobs).Draw(t, "config")
 			var subj *mdesc
 			if rapid.IntRange(0, 2).Draw(t, "artifact") == 0 {
-				sd := rapid.SampledFrom(sortedKeys(e.universe)).Draw(t, "subject")
+				pool := sortedKeys(e.universe)
+				if len(e.subjects) > 0 && rapid.IntRange(0, 2).Draw(t, "knownSubject") > 0 {
+					pool = sortedKeys(e.subjects) // several referrers of one subject: listings that are split into pages
+				}
+				sd := rapid.SampledFrom(pool).Draw(t, "subject")
 				subj = &mdesc{MediaType: mtImage, Digest: sd, Size: 3}
 				e.subjects[sd] = true
 			}
